@@ -575,13 +575,14 @@ def _explore(run, task, tag, info, stats, start, frontier_depth):
                 conds.append(z3.Implies(z3.And(*(axioms + pc)) if (axioms or pc) else z3.BoolVal(True), cond))
             failing = [name for (name, cond, inf, axioms, pc) in obls if z3.is_false(z3.simplify(cond))]
             q = solve.Query("%s/p%d/%s%s" % (tag, npaths, prop, ("(" + ",".join(failing[:3]) + ")") if failing else ""),
-                            solve.to_smt2([z3.Not(z3.And(*conds))]), expect="unsat", timeout_s=120,
+                            solve.to_smt2([z3.Not(z3.And(*conds))]), expect="unsat", timeout_s=400,
                             info=dict(info, prop=prop, names=[o[0] for o in obls][:200], trace=str(p.result)[:600],
                                       choices=list(p.choices)),
                             group="run/" + prop)
             queries.append(q)
     return {"paths": npaths, "queries": queries, "part": "runs/" + path, "explore_s": time.time() - t0,
             "prefixes": prefixes, "task": task, "commits": stats["commits"], "handlers": sorted(stats["handlers"]),
+            "fail_stops": stats.get("fail_stops", 0),
             "undecided_feasibility": ex.n_unknown}
 
 
